@@ -25,6 +25,7 @@ HARNESS = {
     "fn": (["fn.cc"], True, ""),
     "verif_cmd": (["verif_cmd.cc"], False, ""),
     "argv": (["argv.cc"], False, ""),
+    "logh": (["logh.cc"], True, ""),
 }
 
 
